@@ -109,6 +109,77 @@ def check_variant(rep, var):
             u()
 
 
+def check_example(rep, fname):
+    """an example network read from its INP file, every length / diameter / roughness / elevation / demand / level / head a proxy"""
+    from .c12 import symbolise
+    tag = 'example/' + fname.split('/')[-1]
+    undo = [symx.install_shims(m, names) for m, names in MODS]
+    try:
+        def harness(c):
+            V = SymVars(c)
+            wn = EIO.InpFile().read(fname)
+            symbolise(V, wn)
+            return (V,) + trips(wn)
+        n = 0
+        bad = set()
+        cons = []
+        for path in symx.explore(harness, max_paths=20, timeout_s=900):
+            n += 1
+            cons = path.constraints()
+            if path.exc is not None:
+                if 'raised' not in bad:
+                    bad.add('raised')
+                    rep.counterexample('roundtrip/%s/raised' % tag, dict(example=fname, why='%s: %s' % (type(path.exc).__name__, str(path.exc)[:300])), 'example')
+                continue
+            V, d0, d1, d2, d3 = path.value
+            ref = normalise(d0)
+            for name, other in (('dict', d1), ('json', d2), ('append', d3)):
+                if name in bad:
+                    continue
+                mism, claims = compare(ref, normalise(other))
+                if mism:
+                    bad.add(name)
+                    m_ = symx.satisfiable(cons)
+                    rep.counterexample('roundtrip/%s/%s' % (tag, name), dict(V.witness(m_.model, example=fname, what=name), why='; '.join(mism[:4])), 'example')
+                    continue
+                hard = [cl for _, cl in claims if not z3.is_true(z3.simplify(cl))]
+                for k in range(0, max(len(hard), 1), 200):
+                    if not rep.prove('roundtrip/%s/%s/%d/path%d' % (tag, name, k // 200, n), cons, z3.And(*hard[k:k + 200]) if hard else z3.BoolVal(True),
+                                     lambda mdl, V=V, name=name: V.witness(mdl, example=fname, what=name), 'example',
+                                     sample='%s round trip: %d numeric leaves equal (%d syntactically identical)' % (name, len(claims), len(claims) - len(hard))):
+                        bad.add(name)
+                        break
+        rep.extra['paths_' + tag] = n
+        if n == 0:
+            rep.harness_errors.append('roundtrip/%s: no feasible path' % tag)
+        if not bad and n:
+            rep.reach('roundtrip/' + tag, cons)
+    finally:
+        for u in undo:
+            u()
+
+
+def replay_example(i):
+    from .c12 import symbolise
+    fname = i['example']
+    vals = {k: v for k, v in i.items() if k not in ('example', 'what', 'why')}
+    wn = EIO.InpFile().read(fname)
+    if vals:
+        symbolise(ConcVars(vals), wn)
+    try:
+        d0, d1, d2, d3 = trips(wn)
+    except Exception as ex:
+        return 'round trip raised %s: %s' % (type(ex).__name__, str(ex)[:300])
+    ref = normalise(d0)
+    for name, other in (('dict', d1), ('json', d2), ('append', d3)):
+        if i.get('what') and i['what'] != name:
+            continue
+        mism, _ = compare(ref, normalise(other))
+        if mism:
+            return '%s round trip changes the model: %s' % (name, '; '.join(mism[:4]))
+    return None
+
+
 class _Default(dict):
     def __missing__(self, k):
         raise KeyError(k)
@@ -145,6 +216,8 @@ def run(rep, only=None):
                C.ControlCondition._sec_to_hours_min_sec, C.ControlCondition._sec_to_clock, EIO._read_control_line, EIO._EpanetRule.parse_rules_lines, EIO._EpanetRule.generate_control)
     rep.stub('int/float/isinstance shims in wntr.network.io/elements/model/base/controls/options and wntr.epanet.io; json -> token shim (proxy <-> all-digit JSON integer, exact)')
     rep.templates.append('kitchen-sink model K: 6 junctions, 2 tanks (one with volume curve, overflow, mixing), 2 reservoirs, 6 pipes (CV, closed, vertices), 3 pumps, 5 valves (PRV PSV FCV TCV PBV), 4 patterns, 4 curves, 2 sources, 2 leaks, 5 simple controls, 2 rules')
-    rep.bound('one model structure (three variants: full / without controls / simple controls only); ~200 numeric attributes symbolic incl. control thresholds, time instants and settings')
+    rep.bound('kitchen-sink model in four variants (full / without controls / simple controls only / or-of-and), ~200 numeric attributes symbolic incl. control thresholds, time instants and settings; example networks Net1 (thorough: Net2, Net3) read from their INP files with every pipe / junction / tank / reservoir number symbolic')
     tasks = [('variant-' + v['name'], check_variant, (v,)) for v in VARIANTS]
+    for f in (['Net1.inp'] if rep.tier == 'quick' else ['Net1.inp', 'Net2.inp', 'Net3.inp']):
+        tasks.append(('example-' + f, check_example, ('/repo/examples/networks/' + f,)))
     run_parallel(rep, tasks)
